@@ -29,6 +29,8 @@ func strOf(cls string, seed int64) string {
 		return "<a href=\"x\">&amp;</a>"
 	case "multibyte":
 		return "héllo-漢字-🙂"
+	case "hexaddr":
+		return "0x5aAeb6053F3E94C9b9A09f33669435E7Ef1BeAed" // an account in mixed-case (EIP-55) spelling
 	case "invalidutf8":
 		return "ab\xff\xfecd"
 	case "len64":
